@@ -403,12 +403,34 @@ func (s *Storage) LoadStores(f func(store *StoreInfo)) error {
 
 // SaveStoreWeight saves a store's leader and region weight to storage.
 func (s *Storage) SaveStoreWeight(storeID uint64, leader, region float64) error {
-	leaderValue := strconv.FormatFloat(leader, 'f', -1, 64)
-	if err := s.Save(s.storeLeaderWeightPath(storeID), leaderValue); err != nil {
+	oldLeader, err := s.Load(s.storeLeaderWeightPath(storeID))
+	if err != nil {
 		return err
 	}
+	oldRegion, err := s.Load(s.storeRegionWeightPath(storeID))
+	if err != nil {
+		return err
+	}
+	leaderValue := strconv.FormatFloat(leader, 'f', -1, 64)
 	regionValue := strconv.FormatFloat(region, 'f', -1, 64)
-	return s.Save(s.storeRegionWeightPath(storeID), regionValue)
+	err = s.Save(s.storeLeaderWeightPath(storeID), leaderValue)
+	if err == nil {
+		err = s.Save(s.storeRegionWeightPath(storeID), regionValue)
+	}
+	if err != nil {
+		// best effort (a failed write may have been applied): do not leave a changed key behind an error
+		s.restoreWeight(s.storeLeaderWeightPath(storeID), oldLeader)
+		s.restoreWeight(s.storeRegionWeightPath(storeID), oldRegion)
+	}
+	return err
+}
+
+func (s *Storage) restoreWeight(path, old string) {
+	if old == "" {
+		_ = s.Remove(path)
+		return
+	}
+	_ = s.Save(path, old)
 }
 
 func (s *Storage) loadFloatWithDefaultValue(path string, def float64) (float64, error) {
